@@ -164,7 +164,11 @@ Unsubscribe(c, id, fs) ==
 
 -----------------------------------------------------------------------------
 (* PUBLISH received (3.3, 4.3): QoS 0 accept; QoS 1 PUBACK then accept; QoS 2 store
-   (unless that identifier is already stored) and PUBREC.                              *)
+   (unless that identifier is already stored) and PUBREC.
+   For a publisher subscribed to its own topic the expected output lists the PUBACK before (Pubrel: the PUBCOMP behind)
+   the deliveries the packet causes on the publisher's own connection. That position is a choice of this text, not of any
+   property (4.3.2 / 4.3.3 do not order the acknowledgement and the onward delivery): the replayer compares the
+   acknowledgements and the deliveries of such a step as two streams.                    *)
 Publish(c, t, q, retain, pl, id, dup) ==
   /\ c \in Conns /\ Up(c) /\ q \in {0, 1}
   /\ ret' = RetUpd(ret, t, q, pl, retain)
